@@ -242,8 +242,8 @@ func c17Handle(c *Ctx, r *Report, rule string) {
 				}
 				_ = selected
 				cancelled := false
-				for _, a := range p.Assume {
-					if strings.Contains(a, "select#") && strings.Contains(a, ".idx == 1") && strings.HasSuffix(a, "=true") {
+				for _, f := range selectFired(p) {
+					if !strings.Contains(f, "timer") { // the communication chosen is not the latency timer: the context's Done
 						cancelled = true
 					}
 				}
